@@ -45,6 +45,12 @@ def cases(tier, seed):
             for pat in pats:
                 yield dict(calls=cfg, ts=tsn, maxlen=rnd.choice([0, 7, 16384, 65536]),
                            pattern=list(pat), seed=seed)
+    # a requester object whose first request is rejected and which is asked again: the second
+    # A-ASSOCIATE-RQ must be built from the configuration just like the first
+    for i in range(40 if tier == 'quick' else 1500):
+        k = rnd.choice([1, 2, 3, 10, 40])
+        yield dict(retry=True, calls=[('scu', list(range(k)))], ts=rnd.choice([1, 2, 3]),
+                   maxlen=rnd.choice([0, 16384]), pattern=None, seed=seed * 100049 + i)
     n = 5000 if tier == 'quick' else 150000
     for i in range(n):
         calls = []
@@ -74,7 +80,94 @@ def cases(tier, seed):
                    pattern=None, seed=seed * 100003 + i, calls2=calls2)
 
 
+def _retry_case(case):
+    from pynetdicom2 import applicationentity, exceptions, asceprovider
+    world = SimWorld('c11/retry/%s' % case['seed'])
+    viol = []
+
+    def v(rule, detail):
+        viol.append({'sig': 'C11 %s' % rule, 'detail': '%s\ncase %r' % (detail, _short(case))})
+    try:
+        ts = TS3[:case['ts']]
+        ae = world.make_ae(applicationentity.ClientAE, 'LOCAL_AE', ts, case['maxlen'])
+        ae.timeout = 60
+        classes = [_uid(c) for c in case['calls'][0][1]]
+
+        def service(asce, ctx, *a):
+            return ('service', ctx)
+        service.sop_classes = classes
+        ae.add_scu(service)
+        nconn = {'n': 0}
+
+        def factory(sock):
+            nconn['n'] += 1
+            return peers.ScriptedAcceptor(world.sim, sock, max_length=16384,
+                                          reply='rj' if nconn['n'] == 1 else 'ac', rj=(2, 3, 2))
+        world.serve_peer(ADDR, factory)
+        out = {}
+
+        def user():
+            rq = asceprovider.AssociationRequester(ae, ae.max_pdu_length, {
+                'aet': 'REMOTE_AE', 'address': ADDR[0], 'port': ADDR[1]})
+            try:
+                try:
+                    rq.request()
+                    out['first'] = 'accepted'
+                except exceptions.AssociationRejectedError:
+                    out['first'] = 'rejected'
+                rq.request()
+                out['second'] = 'accepted'
+                look = {}
+                for c in classes:
+                    try:
+                        look[c] = rq.get_scu(c)()
+                    except exceptions.ClassNotSupportedError:
+                        look[c] = 'not-supported'
+                out['look'] = look
+                rq.release()
+            except Exception as e:  # pylint: disable=broad-except
+                out['exc'] = e
+            finally:
+                try:
+                    rq.kill()
+                except Exception:  # pylint: disable=broad-except
+                    pass
+        world.spawn(user, 'user')
+        world.run(tmax=400)
+        world.drain(2.0)
+        rqs = [p.rq for p in world.peers if p.rq is not None]
+        if out.get('first') != 'rejected' or len(rqs) < 2:
+            # the retry itself is not the subject: only judge when it took place
+            if 'exc' in out and len(rqs) < 2:
+                v('retry-on-the-same-requester-failed exc=%s' % type(out['exc']).__name__,
+                  repr(out['exc']))
+            return _fin(world, viol, case, classes)
+        first, second = rqs[0], rqs[1]
+        for name, rq_ in (('first', first), ('second', second)):
+            abss = sorted(c[1] for c in rq_['contexts'])
+            ids = [c[0] for c in rq_['contexts']]
+            if abss != sorted(classes):
+                v('classes-not-proposed-exactly-once attempt=%s' % name,
+                  'configured %d classes, proposed %r' % (len(classes), abss[:6]))
+            if len(set(ids)) != len(ids) or any(i % 2 == 0 or not 1 <= i <= 255 for i in ids):
+                v('context-ids-not-distinct-odd-1-255', repr(ids[:20]))
+            if rq_['called'] != 'REMOTE_AE' or rq_['calling'] != 'LOCAL_AE':
+                v('ae-titles-wrong', repr((rq_['called'], rq_['calling'])))
+        if 'look' in out:
+            bad = [c for c, g in out['look'].items() if not isinstance(g, tuple)]
+            if bad:
+                v('lookup-fails-for-accepted-class', 'second attempt: %r' % bad[:4])
+        elif 'exc' in out:
+            v('retry-on-the-same-requester-failed exc=%s' % type(out['exc']).__name__,
+              repr(out['exc']))
+        return _fin(world, viol, case, classes)
+    finally:
+        world.close()
+
+
 def run_case(case):
+    if case.get('retry'):
+        return _retry_case(case)
     from pynetdicom2 import applicationentity, exceptions
     rnd = random.Random('c11r/%s' % case['seed'])
     world = SimWorld('c11/%s' % case['seed'])
